@@ -924,13 +924,22 @@ impl ResponseVariantFragment {
 impl ToTokens for ResponseVariantFragment {
   fn to_tokens(&self, tokens: &mut TokenStream) {
     let variant_name = &self.variant.variant_name;
-    let doc_line = self.variant.doc_line();
+    // The response description is part of this line: a line break in it (in particular a
+    // bare carriage return, which rustc rejects inside a doc comment) starts a new doc line.
+    let doc_lines: Vec<String> = self
+      .variant
+      .doc_line()
+      .replace("\r\n", "\n")
+      .replace('\r', "\n")
+      .lines()
+      .map(String::from)
+      .collect();
     let content = self.variant.schema_type.as_ref().map(|schema| {
       quote! { (#schema) }
     });
 
     let ts = quote! {
-      #[doc = #doc_line]
+      #(#[doc = #doc_lines])*
       #variant_name #content
     };
 
